@@ -9,6 +9,7 @@ import (
 
 	"golang.org/x/tools/go/ssa"
 
+	"verif/checker/internal/cfgutil"
 	"verif/checker/internal/engine"
 	"verif/checker/internal/load"
 	"verif/checker/internal/regions"
@@ -18,6 +19,10 @@ import (
 func init() {
 	engine.Register("N-WALK", ruleNWalk)
 	engine.Register("N-CTOR", ruleNCtor)
+	engine.Register("N-GETSET", ruleNGetSet)
+	engine.Register("N-HEAD", ruleNHead)
+	engine.Register("U-DECODE", ruleUDecode)
+	engine.Register("R-ITER-STABLE", ruleIterStable)
 }
 
 // nodeSetters: the per-node setters of the basic node that store their argument into a field
@@ -87,8 +92,9 @@ func setterCall(p *load.Program, ins ssa.Instruction, setters map[string]int) (m
 
 // edgesPropagated: which fields of base (a value of type *T) receive setter m inside fn, with
 // only harmless guards (type-test ok, bool fields of base, loop conditions).
-func edgesPropagated(p *load.Program, fn *ssa.Function, base ssa.Value, m string, setters map[string]int) map[int]bool {
+func edgesPropagated(p *load.Program, fn *ssa.Function, base ssa.Value, m string, setters map[string]int, evalGuards map[int]map[string]bool, mainArg ssa.Value, mainRecv ssa.Value) map[int]bool {
 	got := map[int]bool{}
+	getters := nodeGetters(p)
 	// guards are examined from the point where base is established (its type test) onwards
 	var region *ssa.BasicBlock
 	if ex, ok := base.(*ssa.Extract); ok {
@@ -104,6 +110,31 @@ func edgesPropagated(p *load.Program, fn *ssa.Function, base ssa.Value, m string
 			if !ok2 || bs != base {
 				continue
 			}
+			// the member receives what the composite receives: the same argument, or the
+			// composite's own value of that setting read back through its getter
+			if mainArg != nil {
+				arg := setterArg(ins)
+				same := arg == mainArg
+				if gc, isCall := arg.(*ssa.Call); isCall && !same {
+					gname := ""
+					var grecv ssa.Value
+					if gc.Call.IsInvoke() {
+						gname, grecv = gc.Call.Method.Name(), gc.Call.Value
+					} else if sc := gc.Call.StaticCallee(); sc != nil && len(gc.Call.Args) == 1 {
+						gname, grecv = sc.Name(), gc.Call.Args[0]
+					}
+					if gf, isG := getters[gname]; isG && gf == setters[m] {
+						if grecv == mainRecv || grecv == base {
+							same = true
+						} else if _, bs2, ok3 := fieldOfBase(grecv, base, 0); ok3 && bs2 == base {
+							same = true // promoted getter on the composite's own basic node
+						}
+					}
+				}
+				if !same {
+					continue
+				}
+			}
 			guardsOK := true
 			for _, dc := range dominatingConds(b) {
 				if region != nil && !(dc.at.Block() == region || region.Dominates(dc.at.Block())) {
@@ -114,8 +145,14 @@ func edgesPropagated(p *load.Program, fn *ssa.Function, base ssa.Value, m string
 						continue
 					}
 				}
-				inner, _ := unwrapNot(dc.cond)
-				if _, _, isBool := boolFieldLoad(inner); isBool {
+				inner, neg := unwrapNot(dc.cond)
+				if _, gf, isBool := boolFieldLoad(inner); isBool {
+					// a flag of the composite may guard the update only if evaluation uses the edge under the same flag
+					key := fmt.Sprintf("%d:%v", gf, dc.taken != neg)
+					if evalGuards[f][key] {
+						continue
+					}
+					guardsOK = false
 					continue
 				}
 				if bo, isBo := dc.cond.(*ssa.BinOp); isBo && (bo.Op == token.LSS || bo.Op == token.NEQ || bo.Op == token.EQL) {
@@ -200,7 +237,7 @@ func ruleNWalk(c *engine.Context) *report.Rule {
 	for _, T := range Ts {
 		for m := range setters {
 			if fn := override(T, m); fn != nil {
-				got := edgesPropagated(p, fn, fn.Params[0], m, setters)
+				got := edgesPropagated(p, fn, fn.Params[0], m, setters, evalEdgeGuards(c, T), fn.Params[1], fn.Params[0])
 				ok := true
 				var missing []int
 				for _, f := range comp[T] {
@@ -233,8 +270,9 @@ func ruleNWalk(c *engine.Context) *report.Rule {
 					if !ok {
 						what = edgeNames(T, missing)
 					}
-					r.Violation(fmt.Sprintf("%s.%s does not reach every member edge", T.Obj().Name(), m), p.RelPos(fn.Pos()),
-						"%s implements %s itself but does not apply it to %s", T.Obj().Name(), m, what)
+					f := r.Violation(fmt.Sprintf("%s.%s does not reach every member edge", T.Obj().Name(), m), p.RelPos(fn.Pos()),
+						"%s implements %s itself but does not apply it (on every path, or under a flag evaluation does not use for that edge) to %s", T.Obj().Name(), m, what)
+					engine.Restrict(f, walkProps(p, m, setters)...)
 				}
 			}
 		}
@@ -334,7 +372,7 @@ func ruleNWalk(c *engine.Context) *report.Rule {
 					if tv == nil {
 						missing = comp[T]
 					} else {
-						got := edgesPropagated(p, fn, tv, m, setters)
+						got := edgesPropagated(p, fn, tv, m, setters, evalEdgeGuards(c, T), setterArg(ins), recv)
 						for _, f := range comp[T] {
 							if !got[f] {
 								missing = append(missing, f)
@@ -534,4 +572,638 @@ func derivesFromMemberEdge(v ssa.Value, T *types.Named, fields []int, depth int)
 		return derivesFromMemberEdge(x.X, T, fields, depth+1)
 	}
 	return false
+}
+
+// evalEdgeGuards: for each member edge of T, the receiver-flag conditions ("field:polarity") that
+// dominate every evaluation-time use of the edge (within the using method).
+func evalEdgeGuards(c *engine.Context, T *types.Named) map[int]map[string]bool {
+	p := c.P
+	out := map[int]map[string]bool{}
+	first := map[int]bool{}
+	for _, fn := range evalFuncs(c) {
+		if fn.Signature.Recv() == nil {
+			continue
+		}
+		rt := fn.Signature.Recv().Type()
+		if pt, ok := rt.(*types.Pointer); ok {
+			rt = pt.Elem()
+		}
+		if !types.Identical(rt, T) {
+			continue
+		}
+		for _, b := range fn.Blocks {
+			for _, ins := range b.Instrs {
+				call, ok := ins.(*ssa.Call)
+				if !ok {
+					continue
+				}
+				var recv ssa.Value
+				if call.Call.IsInvoke() && call.Call.Method.Name() == p.Roles.RetrieveName {
+					recv = call.Call.Value
+				} else if sc := call.Call.StaticCallee(); sc != nil && sc.Name() == p.Roles.RetrieveName && len(call.Call.Args) > 0 {
+					recv = call.Call.Args[0]
+				} else {
+					continue
+				}
+				f, ok := fieldOrigin(recv, fn, 0)
+				if !ok {
+					continue
+				}
+				here := map[string]bool{}
+				for _, dc := range dominatingConds(b) {
+					inner, neg := unwrapNot(dc.cond)
+					if base, gf, isBool := boolFieldLoad(inner); isBool && base == ssa.Value(fn.Params[0]) {
+						here[fmt.Sprintf("%d:%v", gf, dc.taken != neg)] = true
+					}
+				}
+				if !first[f] {
+					first[f] = true
+					out[f] = here
+				} else {
+					for k := range out[f] {
+						if !here[k] {
+							delete(out[f], k)
+						}
+					}
+				}
+			}
+		}
+	}
+	return out
+}
+
+// setterArg: the argument of a setter call.
+func setterArg(ins ssa.Instruction) ssa.Value {
+	call, ok := ins.(*ssa.Call)
+	if !ok {
+		return nil
+	}
+	if call.Call.IsInvoke() {
+		if len(call.Call.Args) == 1 {
+			return call.Call.Args[0]
+		}
+		return nil
+	}
+	if len(call.Call.Args) == 2 {
+		return call.Call.Args[1]
+	}
+	return nil
+}
+
+// nodeGetters: getters of the basic node: name -> field returned.
+func nodeGetters(p *load.Program) map[string]int {
+	out := map[string]int{}
+	for _, fn := range p.Funcs {
+		if fn.Signature.Recv() == nil || fn.Blocks == nil || len(fn.Blocks) != 1 || len(fn.Params) != 1 || fn.Signature.Results().Len() != 1 {
+			continue
+		}
+		pt, ok := fn.Signature.Recv().Type().(*types.Pointer)
+		if !ok || !types.Identical(pt.Elem(), p.Roles.BasicNode) {
+			continue
+		}
+		if ret, ok := fn.Blocks[0].Instrs[len(fn.Blocks[0].Instrs)-1].(*ssa.Return); ok && len(ret.Results) == 1 {
+			if ld, ok := ret.Results[0].(*ssa.UnOp); ok {
+				if fa, ok := ld.X.(*ssa.FieldAddr); ok && fa.X == ssa.Value(fn.Params[0]) {
+					out[fn.Name()] = fa.Field
+				}
+			}
+		}
+	}
+	return out
+}
+
+// ruleNGetSet: N-GETSET — a node type that implements one of the basic node's getters itself
+// must still report what the matching setter stored (the parser moves flags between nodes with
+// the setters, e.g. when it strips the leading `$`/`@` of a filter operand).
+func ruleNGetSet(c *engine.Context) *report.Rule {
+	r := report.NewRule("N-GETSET", "every node type's getters report what the basic node's setters store", 5)
+	p := c.P
+	getters := nodeGetters(p)
+	if len(getters) < 3 {
+		r.InfraFail("anchor unresolved: getters of the basic node (found %d)", len(getters))
+		return r
+	}
+	bst, _ := p.Roles.BasicNode.Underlying().(*types.Struct)
+	// fields written after construction: by a setter method of the basic node (any store to the field in a method of the basic node)
+	written := map[int]bool{}
+	for _, fn := range p.Funcs {
+		if fn.Signature.Recv() == nil || fn.Blocks == nil {
+			continue
+		}
+		pt, ok := fn.Signature.Recv().Type().(*types.Pointer)
+		if !ok || !types.Identical(pt.Elem(), p.Roles.BasicNode) {
+			continue
+		}
+		for _, b := range fn.Blocks {
+			for _, ins := range b.Instrs {
+				if st, ok := ins.(*ssa.Store); ok {
+					if fa, ok := st.Addr.(*ssa.FieldAddr); ok && fa.X == ssa.Value(fn.Params[0]) {
+						written[fa.Field] = true
+					}
+				}
+			}
+		}
+	}
+	var gnames []string
+	for g := range getters {
+		gnames = append(gnames, g)
+	}
+	sort.Strings(gnames)
+	for _, g := range gnames {
+		f := getters[g]
+		if !written[f] {
+			continue
+		}
+		for _, T := range p.Roles.NodeTypes {
+			if types.Identical(T, p.Roles.BasicNode) {
+				continue
+			}
+			r.Instances++
+			fn := methodOf(p, T, g)
+			own := fn != nil && fn.Blocks != nil && fn.Synthetic == ""
+			if own {
+				pt, ok := fn.Signature.Recv().Type().(*types.Pointer)
+				own = ok && types.Identical(pt.Elem(), T)
+			}
+			if !own {
+				r.Oblige(true)
+				continue
+			}
+			reads := false
+			for _, b := range fn.Blocks {
+				for _, ins := range b.Instrs {
+					switch x := ins.(type) {
+					case *ssa.FieldAddr:
+						if pt, ok := x.X.Type().(*types.Pointer); ok && types.Identical(pt.Elem(), p.Roles.BasicNode) && x.Field == f {
+							reads = true
+						}
+					case *ssa.Call:
+						if sc := x.Call.StaticCallee(); sc != nil && sc.Name() == g && sc.Signature.Recv() != nil {
+							if pt, ok := sc.Signature.Recv().Type().(*types.Pointer); ok && types.Identical(pt.Elem(), p.Roles.BasicNode) {
+								reads = true
+							}
+						}
+					}
+				}
+			}
+			r.Oblige(reads)
+			r.Sample("%s implements %s itself: reads the stored %s: %v", T.Obj().Name(), g, bst.Field(f).Name(), reads)
+			if !reads {
+				fd := r.Violation(fmt.Sprintf("%s.%s ignores the stored %s", T.Obj().Name(), g, bst.Field(f).Name()), p.RelPos(fn.Pos()),
+					"%s answers %s without reading the basic node's %s, which the parser sets through the node interface after construction (e.g. when it moves a flag from a stripped `$`/`@` to the first remaining step): what was set is lost for nodes of this type", T.Obj().Name(), g, bst.Field(f).Name())
+				switch {
+				case types.Identical(bst.Field(f).Type(), p.Roles.NodeIface):
+					engine.Restrict(fd, "C08", "C14")
+				case isBasicKind(bst.Field(f).Type(), types.Bool):
+					engine.Restrict(fd, "C17", "C09", "C12")
+				default:
+					engine.Restrict(fd, "C15")
+				}
+			}
+		}
+	}
+	return r
+}
+
+// ruleNHead: N-HEAD — whether a filter operand is `$`-rooted or `@`-rooted is decided by a type
+// test of the chain's head against the root-identifier types. A chain that ends in functions is
+// wrapped: the value at hand is then the outermost function node and the head is below its
+// parameter links. Every such type test must therefore be applied to a value that is known not to
+// be a wrapper node (all wrappers unwrapped), or the wrapper case must be handled for that value.
+func ruleNHead(c *engine.Context) *report.Rule {
+	r := report.NewRule("N-HEAD", "root / current-root classification of a node is applied below all function wrappers", 2)
+	p := c.P
+	// wrapper types: node types evaluating a node field into a private sink
+	wrappers := map[*types.Named]bool{}
+	for _, e := range findRetrieveEdges(c) {
+		if e.sameSink {
+			continue
+		}
+		if st, ok := e.T.Underlying().(*types.Struct); ok && types.Identical(st.Field(e.field).Type(), p.Roles.NodeIface) {
+			for _, nt := range p.Roles.NodeTypes {
+				if nt == e.T {
+					wrappers[e.T] = true
+				}
+			}
+		}
+	}
+	// forwarders: node types consisting of the basic node only whose evaluation inspects nothing
+	forwarders := map[*types.Named]bool{}
+	for _, T := range p.Roles.NodeTypes {
+		st, ok := T.Underlying().(*types.Struct)
+		if !ok || st.NumFields() != 1 || types.Identical(T, p.Roles.BasicNode) {
+			continue
+		}
+		fn := methodOf(p, T, p.Roles.RetrieveName)
+		if fn == nil || fn.Blocks == nil {
+			continue
+		}
+		inspects := false
+		for _, b := range fn.Blocks {
+			for _, ins := range b.Instrs {
+				switch ins.(type) {
+				case *ssa.TypeAssert, *ssa.Lookup, *ssa.IndexAddr, *ssa.Range:
+					inspects = true
+				}
+			}
+		}
+		if !inspects {
+			forwarders[T] = true
+		}
+	}
+	if len(wrappers) == 0 || len(forwarders) < 2 {
+		r.InfraFail("anchor unresolved: wrapper node types (%d) / root identifier types (%d)", len(wrappers), len(forwarders))
+		return r
+	}
+	namedOf := func(t types.Type) *types.Named {
+		if pt, ok := t.(*types.Pointer); ok {
+			t = pt.Elem()
+		}
+		nt, _ := t.(*types.Named)
+		return nt
+	}
+	for _, fn := range p.Funcs {
+		if fn.Blocks == nil || !p.ParsePhase[fn] {
+			continue
+		}
+		n := 0
+		for _, b := range fn.Blocks {
+			for _, ins := range b.Instrs {
+				ta, ok := ins.(*ssa.TypeAssert)
+				if !ok || !ta.CommaOk || !types.Identical(ta.X.Type(), p.Roles.NodeIface) {
+					continue
+				}
+				nt := namedOf(ta.AssertedType)
+				if nt == nil || !forwarders[nt] {
+					continue
+				}
+				n++
+				r.Instances++
+				// (a) known not to be a wrapper here
+				known := false
+				for _, dc := range dominatingConds(b) {
+					if dc.taken {
+						continue
+					}
+					if ex, isE := dc.cond.(*ssa.Extract); isE && ex.Index == 1 {
+						if ta2, isTA := ex.Tuple.(*ssa.TypeAssert); isTA && ta2.X == ta.X {
+							if w := namedOf(ta2.AssertedType); w != nil && wrappers[w] {
+								known = true
+							}
+						}
+					}
+				}
+				// (b) the wrapper case of the same value is handled in this function
+				handled := false
+				for _, bb := range fn.Blocks {
+					for _, x := range bb.Instrs {
+						if ta2, isTA := x.(*ssa.TypeAssert); isTA && ta2.CommaOk && ta2.X == ta.X {
+							if w := namedOf(ta2.AssertedType); w != nil && wrappers[w] {
+								handled = true
+							}
+						}
+					}
+				}
+				ok2 := known || handled
+				r.Oblige(ok2)
+				r.Sample("%s: test #%d for %s: value known unwrapped: %v, wrapper case handled: %v", load.FuncName(fn), n, nt.Obj().Name(), known, handled)
+				if !ok2 {
+					r.Violation(fmt.Sprintf("%s: %s test on a possibly wrapped node", load.FuncName(fn), nt.Obj().Name()), p.RelPos(ta.Pos()),
+						"%s tests a node for %s although the node may still be a function wrapper (its head is below the wrapper's parameter link, possibly several levels down): an operand such as `$.a.f().g()` is then classified by the wrong node and evaluated against the wrong root", load.FuncName(fn), nt.Obj().Name())
+				}
+			}
+		}
+	}
+	return r
+}
+
+// ruleUDecode: U-DECODE — the two quoted spellings of a member name (`['k']`, `["k"]`) denote
+// the same name because both are turned into one JSON string literal and decoded by the same
+// decoder. Every helper that decodes quoted text returns, on every path, only what the decoder
+// returned (no path returns the raw text or a hand-decoded value).
+func ruleUDecode(c *engine.Context) *report.Rule {
+	r := report.NewRule("U-DECODE", "quoted member names are decoded by the one JSON string decoder on every path of both quote helpers", 2)
+	p := c.P
+	isStr := func(t types.Type) bool { return isBasicKind(t, types.String) }
+	// the decoder: calls encoding/json.Unmarshal and returns (string, error)
+	decoders := map[*ssa.Function]bool{}
+	for _, fn := range p.Funcs {
+		if fn.Blocks == nil || !p.ParsePhase[fn] || p.FuncIsGenerated(fn) {
+			continue
+		}
+		res := fn.Signature.Results()
+		if res.Len() != 2 || !isStr(res.At(0).Type()) {
+			continue
+		}
+		for _, b := range fn.Blocks {
+			for _, ins := range b.Instrs {
+				if call, ok := ins.(*ssa.Call); ok {
+					if sc := call.Call.StaticCallee(); sc != nil && sc.Pkg != nil && sc.Pkg.Pkg.Path() == "encoding/json" && sc.Name() == "Unmarshal" {
+						decoders[fn] = true
+					}
+				}
+			}
+		}
+	}
+	if len(decoders) == 0 {
+		r.InfraFail("anchor unresolved: JSON string decoder helper")
+		return r
+	}
+	for fn := range decoders {
+		// the decoder itself returns, on every path, the variable the library decoder filled
+		r.Instances++
+		var target *ssa.Alloc
+		var ucall *ssa.Call
+		for _, b := range fn.Blocks {
+			for _, ins := range b.Instrs {
+				if call, ok := ins.(*ssa.Call); ok {
+					if sc := call.Call.StaticCallee(); sc != nil && sc.Pkg != nil && sc.Pkg.Pkg.Path() == "encoding/json" && sc.Name() == "Unmarshal" && len(call.Call.Args) == 2 {
+						if mi, ok := call.Call.Args[1].(*ssa.MakeInterface); ok {
+							if al, ok := mi.X.(*ssa.Alloc); ok {
+								target, ucall = al, call
+							}
+						}
+					}
+				}
+			}
+		}
+		ok := target != nil
+		var badAt ssa.Instruction
+		if ok {
+			for _, b := range fn.Blocks {
+				if ret, isRet := b.Instrs[len(b.Instrs)-1].(*ssa.Return); isRet && len(ret.Results) == 2 {
+					ld, isLd := ret.Results[0].(*ssa.UnOp)
+					if !isLd || ld.X != ssa.Value(target) || !instrBefore(ucall, ld) {
+						ok, badAt = false, ret
+					}
+				}
+			}
+		}
+		r.Oblige(ok)
+		r.Sample("decoder %s returns the variable filled by encoding/json on every path: %v", load.FuncName(fn), ok)
+		if !ok {
+			pos := p.RelPos(fn.Pos())
+			if badAt != nil {
+				pos = p.RelPos(badAt.Pos())
+			}
+			r.Violation("decoder "+load.FuncName(fn)+" has a path around encoding/json", pos,
+				"%s returns, on some path, a string that was not produced by encoding/json.Unmarshal: member names decoded on that path can differ from what the JSON decoder (and therefore the document's own keys) would give", load.FuncName(fn))
+		}
+	}
+	helpers := 0
+	for _, fn := range p.Funcs {
+		if fn.Blocks == nil || !p.ParsePhase[fn] || p.FuncIsGenerated(fn) || decoders[fn] {
+			continue
+		}
+		res := fn.Signature.Results()
+		if res.Len() != 1 || !isStr(res.At(0).Type()) {
+			continue
+		}
+		var dcalls []*ssa.Call
+		for _, b := range fn.Blocks {
+			for _, ins := range b.Instrs {
+				if call, ok := ins.(*ssa.Call); ok {
+					if sc := call.Call.StaticCallee(); sc != nil && decoders[sc] {
+						dcalls = append(dcalls, call)
+					}
+				}
+			}
+		}
+		if len(dcalls) == 0 {
+			continue
+		}
+		helpers++
+		r.Instances++
+		isDecoded := func(v ssa.Value) bool {
+			var chk func(v ssa.Value, seen map[ssa.Value]bool) bool
+			chk = func(v ssa.Value, seen map[ssa.Value]bool) bool {
+				if seen[v] {
+					return true
+				}
+				seen[v] = true
+				switch x := v.(type) {
+				case *ssa.Extract:
+					if call, ok := x.Tuple.(*ssa.Call); ok && x.Index == 0 {
+						if sc := call.Call.StaticCallee(); sc != nil && decoders[sc] {
+							return true
+						}
+					}
+				case *ssa.Phi:
+					for _, e := range x.Edges {
+						if !chk(e, seen) {
+							return false
+						}
+					}
+					return true
+				}
+				return false
+			}
+			return chk(v, map[ssa.Value]bool{})
+		}
+		ok := true
+		var badAt ssa.Instruction
+		for _, b := range fn.Blocks {
+			if ret, isRet := b.Instrs[len(b.Instrs)-1].(*ssa.Return); isRet && len(ret.Results) == 1 {
+				if !isDecoded(ret.Results[0]) {
+					ok, badAt = false, ret
+				}
+			}
+		}
+		r.Oblige(ok)
+		r.Sample("%s returns only decoder output: %v", load.FuncName(fn), ok)
+		if !ok {
+			r.Violation(load.FuncName(fn)+" returns undecoded text on some path", p.RelPos(badAt.Pos()),
+				"%s has a path that returns something other than the JSON string decoder's result: on that path the text is not validated or unescaped the way the other quote style is, so `['k']` and `[\"k\"]` can denote different names or differ in which inputs they reject", load.FuncName(fn))
+		}
+	}
+	if helpers < 2 {
+		r.Oblige(false)
+		r.Undischarged("quoted-name helpers", "-", "expected a helper per quote style that goes through the decoder, found %d", helpers)
+	}
+	return r
+}
+
+// ruleIterStable: R-ITER-STABLE — a fan-out loop walks a list (indexes, keys, members) while it
+// hands control to the following steps. The list being walked must not be memory that the steps
+// called inside the loop can reach through their arguments and overwrite: a nested step of the
+// same kind would otherwise change the list under the outer loop (re-entrancy on one goroutine).
+func ruleIterStable(c *engine.Context) *report.Rule {
+	r := report.NewRule("R-ITER-STABLE", "no evaluation loop walks a list that the steps it calls can reach through their arguments and overwrite", 6)
+	a := regionsOf(c)
+	p := c.P
+	// transitive callees per function (engine call graph)
+	memo := map[*ssa.Function]map[*ssa.Function]bool{}
+	var reach func(fn *ssa.Function) map[*ssa.Function]bool
+	reach = func(fn *ssa.Function) map[*ssa.Function]bool {
+		if m, ok := memo[fn]; ok {
+			return m
+		}
+		m := map[*ssa.Function]bool{}
+		memo[fn] = m
+		var walk func(f *ssa.Function)
+		walk = func(f *ssa.Function) {
+			if m[f] {
+				return
+			}
+			m[f] = true
+			for _, cal := range a.Edges(f) {
+				walk(cal)
+			}
+		}
+		walk(fn)
+		return m
+	}
+	// effects by function
+	effBy := map[*ssa.Function][]*regions.Effect{}
+	for _, e := range a.Effects {
+		effBy[e.Fn] = append(effBy[e.Fn], e)
+	}
+	calleesAt := map[ssa.Instruction][]*ssa.Function{}
+	for _, ce := range a.Calls {
+		if ce.Callee != nil {
+			calleesAt[ce.Site] = append(calleesAt[ce.Site], ce.Callee)
+		}
+	}
+	for _, fn := range evalFuncs(c) {
+		loops := cfgutil.Loops(fn)
+		for li, l := range loops {
+			// lists indexed with a loop-carried index inside the loop
+			walked := map[ssa.Value]bool{}
+			for b := range l.Blocks {
+				for _, ins := range b.Instrs {
+					if ia, ok := ins.(*ssa.IndexAddr); ok {
+						if _, isSlice := ia.X.Type().Underlying().(*types.Slice); isSlice && !l.Blocks[blockOf(ia.X)] {
+							walked[ia.X] = true
+						}
+					}
+				}
+			}
+			if len(walked) == 0 {
+				continue
+			}
+			// calls inside the loop
+			var calls []*ssa.Call
+			for b := range l.Blocks {
+				for _, ins := range b.Instrs {
+					if call, ok := ins.(*ssa.Call); ok {
+						if _, isB := call.Call.Value.(*ssa.Builtin); !isB {
+							calls = append(calls, call)
+						}
+					}
+				}
+			}
+			var xs []ssa.Value
+			for x := range walked {
+				xs = append(xs, x)
+			}
+			sort.Slice(xs, func(i, j int) bool { return xs[i].Name() < xs[j].Name() })
+			for _, x := range xs {
+				n := a.ValueNode(x)
+				if n == nil {
+					continue
+				}
+				arrays := map[*regions.Object]bool{}
+				for _, o := range n.Pts() {
+					if o.Kind != regions.KExt {
+						arrays[o.Root()] = true
+					}
+				}
+				if len(arrays) == 0 {
+					continue
+				}
+				r.Instances++
+				bad := ""
+				var badAt ssa.Instruction
+				for _, call := range calls {
+					// memory reachable from the call's arguments
+					reachable := map[*regions.Object]bool{}
+					args := append([]ssa.Value(nil), call.Call.Args...)
+					if call.Call.IsInvoke() {
+						args = append(args, call.Call.Value)
+					}
+					for _, arg := range args {
+						an := a.ValueNode(arg)
+						if an == nil {
+							continue
+						}
+						for _, o := range an.Pts() {
+							if o.Kind == regions.KExt || o.Kind == regions.KFunc {
+								continue
+							}
+							reachable[o.Root()] = true
+							for _, q := range regions.ReachableObjects(a, o) {
+								reachable[q.Root()] = true
+							}
+						}
+					}
+					shared := false
+					for o := range arrays {
+						if reachable[o] {
+							shared = true
+						}
+					}
+					if !shared {
+						continue
+					}
+					// does anything the call can run write the walked array?
+					for _, callee := range calleesAt[call] {
+						for f := range reach(callee) {
+							for _, e := range effBy[f] {
+								for _, t := range e.Targets {
+									if arrays[t.Root()] && bad == "" {
+										bad = fmt.Sprintf("%s (reached from %s) can execute %s in %s", load.FuncName(callee), describeCall(call), describeStore(p, e.Instr), load.FuncName(e.Fn))
+										badAt = call
+									}
+								}
+							}
+						}
+					}
+				}
+				r.Oblige(bad == "")
+				r.Sample("%s loop #%d walks %s: stable during the calls of the loop body: %v", load.FuncName(fn), li+1, valueLabel(x), bad == "")
+				if bad != "" {
+					f := r.Violation(fmt.Sprintf("%s loop #%d walks a list its callees can overwrite", load.FuncName(fn), li+1), p.RelPos(badAt.Pos()),
+						"the loop walks %s, which is reachable from the arguments of a call inside the loop, and %s: a nested step overwrites the list the outer step is still walking, so the outer step continues with indexes / keys it never computed", valueLabel(x), bad)
+					engine.Restrict(f, "C08", "C11", "C07", "C03")
+				}
+			}
+		}
+	}
+	return r
+}
+
+func blockOf(v ssa.Value) *ssa.BasicBlock {
+	if ins, ok := v.(ssa.Instruction); ok {
+		return ins.Block()
+	}
+	return nil
+}
+
+func describeCall(call *ssa.Call) string {
+	if call.Call.IsInvoke() {
+		return "the call of " + call.Call.Method.Name()
+	}
+	if sc := call.Call.StaticCallee(); sc != nil {
+		return "the call of " + sc.Name()
+	}
+	return "a call"
+}
+
+func valueLabel(v ssa.Value) string {
+	switch x := v.(type) {
+	case *ssa.UnOp:
+		if fa, ok := x.X.(*ssa.FieldAddr); ok {
+			if pt, ok := fa.X.Type().Underlying().(*types.Pointer); ok {
+				if st, ok := pt.Elem().Underlying().(*types.Struct); ok {
+					return "the list in field " + st.Field(fa.Field).Name()
+				}
+			}
+		}
+		return "the list *" + x.X.Name()
+	case *ssa.Call:
+		return "the list returned by " + describeCall(x)[len("the call of "):]
+	case *ssa.Parameter:
+		return "the list parameter " + x.Name()
+	}
+	return "the list " + v.Name()
 }
